@@ -79,17 +79,22 @@ PROPS = {
         suites=[("hdrv", "c03"), ("hdrv", "c03tr")],
         level_text="invalid_name_noop (every operation of the repaired code fails or is a no-op on a name outside the "
                    "grammar), valid names contain no path syntax, effects of every operation are confined to "
-                   "<name>.user / <name>.admin / .tmp of the directory map, List shows only valid names and an "
+                   "<name>.user / <name>.admin / .tmp of the directory map; the path the code computes (model of filepath.Clean / "
+                   "Join, compared with the library and with the paths the real process hands to the kernel) is, for EVERY "
+                   "base directory string and every valid name, the cleaned base directory plus the single component "
+                   "<name><ext> (file_path_is_entry_of_base); List shows only valid names and an "
                    "invalid-named admin file never counts: Lean theorems. Against the code: all six operations on ~50 "
                    "invalid names in a sandbox with a sibling store and decoy files (whole-tree snapshots), and the same "
                    "under strace with the verified checkers `confined` / `untouchedStore` on the real path sets.",
         rule="Names: path separators, '..' segments, absolute, empty, leading - . _ @, control bytes, NUL, > NAME_MAX, "
              "aliases after cleaning, trailing newline, random strings over a separator-rich alphabet, plus valid names; "
              "x authenticate/exists/add/update/set-admin/remove; sandbox = store + sibling-store + decoys incl. "
-             "<base>.admin (what the empty name would address).",
+             "<base>.admin (what the empty name would address); 4000 (60000) generated path strings through Clean / Join; "
+             "traced operations on valid names with base directory strings that need cleaning (trailing and doubled "
+             "slashes, x/.., ./).",
         trusted=[T_FS, "strace (ptrace) output as the record of the paths a process touched; the Go trace parser"],
-        partial=["filepath.Join/Clean are not modelled: that <base>/<name> is the path of entry <name> is observed on "
-                 "the strace traces (path classes), not proved", "frontends are covered by C04's harness"],
+        partial=["frontends are covered by C04's harness",
+                 "symbolic links in the base directory path are outside the lexical path model (the kernel resolves them)"],
         assumptions=["no symlinks inside the base directory"],
     ),
     "C06": dict(
